@@ -4,6 +4,7 @@ import (
 	"encoding/json"
 	"fmt"
 	"io"
+	"strings"
 
 	"github.com/kstenerud/go-concise-encoding/cbe"
 	"github.com/kstenerud/go-concise-encoding/ce"
@@ -140,9 +141,32 @@ func c29Encode(c *fx.Ctx, f codec.Format, doc []ev.E, sc env.Script, strw bool, 
 	return calls
 }
 
+// c29ExtraValues: strings that take the text writer's special paths (line feeds with and without escapes, long bodies),
+// at top level, as elements, keys and fields.
+func c29ExtraValues() []gen.GV {
+	long := strings.Repeat("0123456789abcdef", 20)
+	return []gen.GV{
+		{Name: "str:lf", Class: "string-special", V: "line one\nline two"},
+		{Name: "str:lf-only", Class: "string-special", V: "\n"},
+		{Name: "str:lf+escape", Class: "string-special", V: "a\n\"b\\c\td"},
+		{Name: "str:crlf", Class: "string-special", V: "a\r\nb"},
+		{Name: "str:long", Class: "string-special", V: long},
+		{Name: "str:long+lf", Class: "string-special", V: long + "\n" + long},
+		{Name: "str:unicode-escapes", Class: "string-special", V: "x\u0001y\u2028z\u00a0"},
+		{Name: "strs:lf-elements", Class: "string-special", V: []string{"x\ny", "z", "\n\n"}},
+		{Name: "map:lf-key-and-value", Class: "string-special", V: map[string]string{"k\nk": "v\nw"}},
+		{Name: "struct:lf-field", Class: "string-special", V: struct {
+			S string
+			N int
+			T string
+		}{"p\nq", 7, "tail"}},
+		{Name: "iface:mixed", Class: "string-special", V: []interface{}{"a\nb", int64(1), []byte("raw\nbytes"), "plain"}},
+	}
+}
+
 func c29Run(c *fx.Ctx) {
 	// write side: marshal entry points × value corpus × every write call × fault kind × {io.Writer, io.StringWriter}
-	vals := gen.GoValues(0)
+	vals := append(gen.GoValues(0), c29ExtraValues()...)
 	for _, g := range vals {
 		if leafKind(g.Class) == "edge" {
 			continue
@@ -245,7 +269,7 @@ func init() {
 					}
 				}
 			case "write":
-				for _, g := range gen.GoValues(0) {
+				for _, g := range append(gen.GoValues(0), c29ExtraValues()...) {
 					if g.Name != w.Value {
 						continue
 					}
